@@ -1,6 +1,7 @@
 (* C19: syntax errors point at the offending token.  Theorems only. *)
 From Coq Require Import NArith PArith ZArith List Bool Arith.
 From MSV Require Import Lib.PyStr Model.ErrMsg Proofs.ErrMsgProofs.
+From MSV Require Model.LexErr Proofs.LexErrProofs.
 Import ListNotations.
 
 (* error_location, for EVERY statement written on one line (any number of tokens, any gaps, any
@@ -24,3 +25,22 @@ Example caret_example :
   let items := [(5%positive, [115;101;108;101;99;116]%N, 2); (7%positive, [97]%N, 1); (7%positive, [98]%N, 0)] in
   nth_error items 2 = Some (7%positive, [98]%N, 0) /\ pos_of 0 items 2 = 10.
 Proof. vm_compute. auto. Qed.
+
+(* The lexer's "Illegal character" report, for EVERY text of any number of lines (lines = any strings without
+   a newline) and any offending character at column c of line l: the character at the reported absolute index
+   is that character; the report shows the line of the error behind '>' as its last source line, preceded by
+   the line before it when there is one (and by nothing else), followed by one caret line whose caret is
+   exactly under the offending character. *)
+Theorem C19_illegal_character_report :
+  forall (lines : list str) (l c : nat) (ch : N),
+  forallb LexErr.no_nl lines = true -> l < length lines -> nth_error (nth l lines []) c = Some ch ->
+  let text := LexErr.join_nl lines in
+  let idx := LexErr.pos_of lines l c in
+  nth_error text idx = Some ch /\
+  exists pre caret,
+    LexErr.report text idx = map (fun x => LexErr.cGT :: x) pre ++ [LexErr.cGT :: nth l lines []; caret] /\
+    (l = 0 -> pre = []) /\ (0 < l -> pre = [nth (l - 1) lines []]) /\
+    nth_error caret (S c) = Some LexErr.cCARET /\ nth_error (LexErr.cGT :: nth l lines []) (S c) = Some ch /\
+    length caret = S (S c).
+Proof. exact LexErrProofs.lexer_report_points_at_the_character. Qed.
+Print Assumptions C19_illegal_character_report.
